@@ -28,10 +28,10 @@ def owns(problem, rec):
 
 def model(chk, p):
     w = vlib.workdir("c01-cfg")
-    consts = dict(K=p["K"], LeafSet=p["leaves"], LayoutSet=p["layouts"], Emit="TRUE", ZeroPowEarlyExit="FALSE",
-                  ZeroEntriesKept="FALSE")
+    consts = dict(lang.PARSER_REPAIRED, K=p["K"], KMin=0, LeafSet=p["leaves"], OpSet='"arith"', LayoutSet=p["layouts"], Emit="TRUE",
+                  ZeroPowEarlyExit="FALSE", ZeroEntriesKept="FALSE")
     cfg = lang.mc_cfg(os.path.join(w, "mc.cfg"), consts=consts,
-                      invariants=["RenderParses", "ValueLayers", "DzPropagates", "EmitInv"])
+                      invariants=["RenderParses", "ParserRefines", "ValueLayers", "DzPropagates", "EmitInv"])
     t = tlc("MC_Eval", cfg, workers=12, timeout=3000, xmx="12g")
     expect_holds(t, "MC_Eval")
     chk.model("MC_Eval K=%d leaves=%s" % (p["K"], p["leaves"]), t, "RenderParses, ValueLayers, DzPropagates; every rendering emitted")
